@@ -18,5 +18,6 @@ CONSTANTS
   Coarse = FALSE
   MutPrecedence = FALSE
   MutNoCatch = FALSE
+  MutKilledEscapes = FALSE
   KilledMayRaise = FALSE
 INVARIANTS VerdictIsPrecedenceStrict
